@@ -14,8 +14,10 @@ THEOREMS = ['Flowdyn.C15.' + t for t in ('balance2d', 'periodic_x_fluxes', 'peri
            ['Flowdyn.C02.' + t for t in ('e2Hlle_transpose', 'e2Centered_transpose', 'e2Hlle_reduces_1d', 'e2Centered_reduces_1d',
             'e2Hlle_mirror_x', 'e2Hlle_mirror_y', 'e2Centered_mirror_x', 'e2Centered_mirror_y')] + \
            ['Flowdyn.C16.sym2d_def', 'Flowdyn.C20.bc_tables_nodup', 'Flowdyn.C20.left_is_xface0', 'Flowdyn.C20.top_is_yfaceN']
-AUDIT_IMPORTS = ['Flowdyn.Props.C02', 'Flowdyn.Props.C16', 'Flowdyn.Props.C20']
-PARTIAL = {"reflections": "reflection of the full 2D operator in x and in y (with boundary tags exchanged) is explored by the sweep over all tags; only the kernel mirror laws (C02) are theorems",
+AUDIT_IMPORTS = ['Flowdyn.Props.C02', 'Flowdyn.Props.C16', 'Flowdyn.Props.C20', 'Flowdyn.Props.Kernels2DBridge', 'Flowdyn.Props.C15b']
+THEOREMS = THEOREMS + core.theorems_in(['C15b.lean'], 'Flowdyn.C15')
+THEOREMS = THEOREMS + ['Flowdyn.GenK2.%s_eq' % k for k in ['e2Centered', 'e2Hlle', 'e2Cons2prim', 'e2BcSym', 'e2BcInsub', 'e2BcInsup', 'e2BcOutsub', 'e2BcOutsup']]
+PARTIAL = {"reflections": "reflection of the full 2D operator in x and in y with any boundary pairs (exchanged and conjugated) is proved (C15b.rhs_reflect_x/_y) and instantiated for Euler 2D (euler2d_reflect_x/_y, euler2dBC_reflect_*); for HLLE the instantiation assumes positive face densities at the mirrored cell (Real.sqrt of a negative ratio is 0)",
            "walls in the reduction": "row-by-row reduction is proved for periodic top/bottom; slip-wall top/bottom and the vanishing transverse-momentum residual are checked by the sweep",
            "inlet/outlet 2D mirror laws": "sweep only"}
 LEVEL_NOTE = "structured 2D model with flattening maps validated by L-rhs2d / L-mesh2d"
